@@ -93,7 +93,7 @@ def snapshots(commands, global_decls=False):
 # ------------------------------------------------------------------------------------------- generator
 DEFAULTS = dict(ncmds=(8, 26), p_push=0.12, p_pop=0.10, p_check=0.22, named=0.0, nested_named=0.0, defines=0.0,
                 queries=(), q_prob=0.7, unsat_bias=0.3, all_named=False, max_live=14, max_depth=3, big=0.15, max_push=4,
-                reassert=0.08, value_terms=True, final_check=True, clausal=0.35, bool_args=True, allow_let=True)
+                reassert=0.08, value_terms=True, final_check=True, clausal=0.35, bool_args=True, allow_let=True, reenter=0.25, horn=0.3, hard3=0.25)
 
 
 class HistGen:
@@ -102,7 +102,10 @@ class HistGen:
         self.prof = prof
         self.o = dict(DEFAULTS)
         self.o.update(kw)
-        self.sig = gen.make_signature(rng, prof, self.o['bool_args'])
+        # "horn" mode: implication chains (definite clauses) over many equalities / bounds between a larger set of constants,
+        # which makes unit propagation interleave with theory propagation (transitivity, bound implication)
+        self.horn = rng.random() < self.o['horn'] * (1.0 if self.o['clausal'] > 0 else 0.0)
+        self.sig = gen.make_signature(rng, prof, self.o['bool_args'], nconsts=(5, 8) if self.horn else (2, 4))
         self.tg = gen.TermGen(rng, prof, self.sig, big_consts=self.o['big'], max_depth=self.o['max_depth'])
         self.tg.allow_let = self.o['allow_let']
         self.cmds = []
@@ -115,19 +118,41 @@ class HistGen:
         self.pending = []
         self.def_id = 0
         self.pool = None
-        if rng.random() < self.o['clausal']:
+        if self.horn or rng.random() < self.o['clausal']:
             # "hard" mode: random 2-3 literal clauses over a fixed pool of atoms, so that the answer needs search
-            n = rng.randint(5, 11)
-            self.pool = [self.tg.atom(rng.randint(0, 2)) for _ in range(n)]
-            self.o['max_live'] = max(self.o['max_live'], int(n * rng.choice([2.5, 3.5, 4.3])))
-            self.o['ncmds'] = (self.o['ncmds'][0] + n, self.o['ncmds'][1] + 3 * n)
+            # "hard3": 3-literal clauses only, at a clause / atom ratio around the random 3-SAT threshold, so that the answer
+            # needs tens of conflicts instead of being decided by propagation
+            self.hard3 = rng.random() < self.o['hard3']
+            n = rng.randint(5, 11) if not (self.horn or self.hard3) else rng.randint(10, 22)
+            self.pool = []
+            seen_atoms = set()
+            for _ in range(n):
+                for _try in range(6):
+                    a = self.tg.atom(rng.randint(0, 2) if not self.horn else 0)
+                    txt = pr(a, False)
+                    # no syntactically trivial atoms ((= x x), (distinct x x), (< x x)) and no duplicates in the pool
+                    trivial = a.op == 'app' and len(a.args) >= 2 and len({pr(x, False) for x in a.args}) < len(a.args)
+                    if not trivial and txt not in seen_atoms:
+                        break
+                seen_atoms.add(txt)
+                self.pool.append(a)
+            ratio = rng.choice([2.5, 3.5, 4.3]) if not self.hard3 else rng.choice([3.8, 4.2, 4.6])
+            self.o['max_live'] = max(self.o['max_live'], int(n * ratio))
+            self.o['ncmds'] = (self.o['ncmds'][0] + int(n * ratio * 0.8), self.o['ncmds'][1] + int(n * ratio * 1.3))
+            if self.hard3:
+                self.o['p_check'] = min(self.o['p_check'], 0.06)
 
     def clause_from_pool(self):
         r = self.rng
-        k = r.choice([2, 2, 3, 3, 3, 1])
+        k = r.choice([2, 2, 3, 3, 3, 1]) if not getattr(self, 'hard3', False) else 3
         lits = []
-        for a in r.sample(self.pool, min(k, len(self.pool))):
-            lits.append(gen.negate(a) if r.random() < 0.5 else a)
+        chosen = r.sample(self.pool, min(k, len(self.pool)))
+        for j, a in enumerate(chosen):
+            if self.horn and r.random() < 0.85:
+                neg = j > 0 if r.random() < 0.8 else True   # definite clause (one positive head) or goal clause (all negative)
+            else:
+                neg = r.random() < 0.5
+            lits.append(gen.negate(a) if neg else a)
         return lits[0] if len(lits) == 1 else T('app', 'Bool', head='or', args=lits)
 
     # ---- helpers
@@ -300,13 +325,22 @@ class HistGen:
             return
         n = 1 if self.rng.random() < 0.8 else min(2, self.depth())
         self.cmds.append({'k': 'pop', 'n': n, 'text': '(pop %d)' % n})
+        last_level = []
         for _ in range(n):
-            self.popped += self.levels.pop()
+            last_level = self.levels.pop()
+            self.popped += last_level
             self.live_names.pop()
             self.all_names.pop()
             for m in self.macro_levels.pop():
                 self.tg.macros.remove(m)
         self.pending = []
+        # re-entry: push again and assert (part of) what was just popped, then check - "levels that are popped and re-entered"
+        if last_level and self.rng.random() < self.o['reenter'] and self.depth() < self.o['max_push']:
+            again = [t for t in last_level if not self.uses_dead_macro(t)]
+            if self.rng.random() < 0.4 and len(again) > 1:
+                again = self.rng.sample(again, self.rng.randint(1, len(again)))
+            if again:
+                self.reentry = ['push'] + again + ['check']
 
     def uses_dead_macro(self, t):
         live = {m[0] for m in self.tg.macros}
@@ -321,6 +355,21 @@ class HistGen:
         checks = 0
         while len(self.cmds) < n:
             c = r.random()
+            if getattr(self, 'reentry', None):
+                step = self.reentry.pop(0)
+                if step == 'push':
+                    self.cmds.append({'k': 'push', 'n': 1, 'text': '(push 1)'})
+                    self.levels.append([])
+                    self.live_names.append([])
+                    self.all_names.append([])
+                    self.macro_levels.append([])
+                elif step == 'check':
+                    self.cmds.append({'k': 'check-sat', 'text': '(check-sat)'})
+                    checks += 1
+                    self.emit_queries()
+                else:
+                    self.emit_assert(step)
+                continue
             if self.pending:
                 self.emit_assert(self.pending.pop(0))
                 continue
